@@ -337,10 +337,44 @@ def entry_points_narrow(chk):
     chk.stage('entry points at narrow settings', prints=5 * n)
 
 
+def long_lived_printers(chk):
+    """PrettyPrinter objects constructed BEFORE a set_default_config call: the settings they were not given explicitly
+    follow the defaults in force when they print ('later calls without explicit arguments use' the new defaults),
+    the explicit ones stay."""
+    saved = P._default_config
+    v = {'key': [1, 2, 3], 'words': 'some words ' * 6, 'nested': {'b': {'a': [4, 5, {'z': 1, 'y': 2}]}}}
+    try:
+        P._default_config = dict(saved)
+        objs = [({}, P.PrettyPrinter()), ({'indent': 2}, P.PrettyPrinter(indent=2)), ({'width': 30}, P.PrettyPrinter(width=30)),
+                ({'sort_dict_keys': True, 'depth': 3}, P.PrettyPrinter(sort_dict_keys=True, depth=3))]
+        steps = [{}, {'width': 40}, {'ribbon_width': 20}, {'depth': 2}, {'max_seq_len': 2}, {'sort_dict_keys': True},
+                 {'width': 79, 'ribbon_width': 71, 'depth': None}]
+        for step in steps:
+            if step:
+                P.set_default_config(**step)
+            for explicit, pp in objs:
+                chk.cov['evaluations'] += 2
+                desc = {'constructed_with': explicit, 'defaults_set_since': step, 'defaults_now': dict(P.get_default_config())}
+                try:
+                    with warnings.catch_warnings():
+                        warnings.simplefilter('ignore')
+                        want = P.pformat(v, **explicit)
+                        got = pp.pformat(v)
+                except Exception as e:  # noqa
+                    chk.violation('C18.effective-settings', 'a long-lived PrettyPrinter raised %r (%r)' % (e, desc), desc)
+                    continue
+                if got != want:
+                    chk.violation('C18.effective-settings', 'a PrettyPrinter constructed with %r before set_default_config(%r) '
+                                  'prints %r, pformat with the same explicit settings gives %r' % (explicit, step, got, want), desc)
+    finally:
+        P._default_config = saved
+
+
 def check_c18(chk, args):
     q = chk.tier == 'quick'
     rng = chk.rng
     pretty_repr_registered(chk)
+    long_lived_printers(chk)
     entry_points_narrow(chk)
     table, texts = reference_table()
     chk.cov['reference_texts_distinct'] = len(texts)
